@@ -12,12 +12,12 @@ RECT_FAMILIES = ['ortho-1d', 'ortho-2d', 'ortho-3d', 'skew-2d', 'skew-3d',
                  'cli-single', 'cli-degenerate', 'fill-translation',
                  'fill-rotation', 'lat-trcl', 'container-rot',
                  'container-small', 'container-trcl', 'rotated-cell',
-                 'nested', 'rpp-cell', 'box-cell']
+                 'nested', 'rpp-cell', 'box-cell', 'paren-pairs']
 HEX_FAMILIES = ['regular-6', 'regular-8', 'irregular-6', 'irregular-8',
                 'rotated-6', 'rotated-8', 'handed-minus', 'handed-plus',
                 'swap-last', 'cli-single', 'array-own-zero', 'fill-rotation',
                 'container-rot', 'flip-axial', 'nonadjacent-6',
-                'nonadjacent-8', 'nested', 'side-planes-with-tr']
+                'nonadjacent-8', 'nested', 'side-planes-with-tr', 'paren-pairs']
 
 LAT_U = 50          # universe of the lattice cell
 LAT_CELL = 500
@@ -208,6 +208,29 @@ def _maybe_nested(bld, family, lattice_fill, span):
     return M.Fill(universe=mid, tr=tr_spec(rng, outer_mot, 'inline3'))
 
 
+def _lattice_geom(family, leaves, rng):
+    '''Intersection of the listed planes; for the paren-pairs family the
+    planes are grouped in redundant parentheses, the listing order being
+    the same.'''
+    if family != 'paren-pairs' or len(leaves) < 4:
+        return M.AND(*leaves)
+    groups = []
+    k = 0
+    while k < len(leaves):
+        size = 2 if k + 2 <= len(leaves) else 1
+        if rng.random() < 0.2 and k + 3 <= len(leaves):
+            size = 3
+        chunk = leaves[k:k + size]
+        groups.append(M.GROUP(M.AND(*chunk)) if len(chunk) > 1 else chunk[0])
+        k += size
+    if rng.random() < 0.3:
+        # leave the first pair unparenthesised
+        first = groups[0]
+        if first[0] == 'g':
+            groups[0:1] = list(first[1][1:])
+    return M.AND(*groups)
+
+
 def _fill_for_lattice(bld, family, ranges3, ndim, universes, cell_id):
     '''The FILL of the lattice cell and the CLI option if needed.'''
     rng = bld.rng
@@ -316,7 +339,7 @@ def build_rect(rng, family):
         bld.element_universe(uni, min(lens[:ndim]))
     fil = _fill_for_lattice(bld, family, ranges3, ndim, universes, LAT_CELL)
     mat_l, rho_l = bld.material()
-    lat = M.Cell(LAT_CELL, mat=mat_l, rho=rho_l, geom=M.AND(*leaves),
+    lat = M.Cell(LAT_CELL, mat=mat_l, rho=rho_l, geom=_lattice_geom(family, leaves, rng),
                  imp={'n': '1'}, u=LAT_U, lat=1, fill=fil)
     lat.lat_info = M.LatticeTruth(1, origin, truth)
     if family == 'lat-trcl':
@@ -510,7 +533,7 @@ def build_hex(rng, family):
                                     'fill-rotation') else 'array'
     fil = _fill_for_lattice(bld, fam_fill, ranges3, ndim, universes, LAT_CELL)
     mat_l, rho_l = bld.material()
-    lat = M.Cell(LAT_CELL, mat=mat_l, rho=rho_l, geom=M.AND(*leaves),
+    lat = M.Cell(LAT_CELL, mat=mat_l, rho=rho_l, geom=_lattice_geom(family, leaves, rng),
                  imp={'n': '1'}, u=LAT_U, lat=2, fill=fil)
     lat.lat_info = M.LatticeTruth(2, origin, truth, hexagon=hexv)
     deck.cells.append(lat)
